@@ -77,3 +77,8 @@ reg("C08", "model_checking", "stateless exploration of every resolution (deviati
     "process-vs-circuit equality are checked.",
     "Trusted: the ChoiceSet injection reaches PySimEngine._processes/_active_triggers and the state's pending set (a vacuity guard fails the run if no real choice points are seen); sets built as local variables "
     "(timeline nearest_wakers) are not permuted. Odd clock periods are outside the alphabet.")
+reg("C09", "model_checking", "exploration of every (deviation-bounded) iteration order of the sets built during elaboration + fresh interpreters under different hash seeds; enumeration of every reset point of simulation histories; build-plan round trips",
+    "96 catalogue designs are converted twice, under every permutation with <=2 (3) deviations of every set() the elaborator builds (choice sets injected from the harness), and by the unmodified code in fresh "
+    "interpreters with PYTHONHASHSEED 0..7 (0..39): all RTLIL byte-identical; 231 (1.5k) simulation scenarios are run twice and, for EVERY prefix length k of the history, k steps + reset() + rerun must equal a fresh run "
+    "with all signals / memory rows back at their initial contents; build plans on three platforms: prepare twice, archive twice (sorted members, fixed timestamps, insertion-order independent), extract == plan.",
+    "Trusted: injection covers sets created with set() in hdl._ir/_xfrm; set displays/comprehensions and other modules are covered by the real hash-seed runs only.")
